@@ -14,8 +14,14 @@ EXPLANATION = (
     "distinct ranks and Identifier.__lt__/__gt__ are mirror images: same guard chain, rank lookup with the same key on both "
     "sides, operator matching the method; the None guard is by identity (a falsy term is not None); (c) pickling: "
     "__reduce__ of every term class rebuilds from all the fields __eq__ compares, and Literal.__getstate__/__setstate__ "
-    "use the same keys. Transitivity of Literal ordering and the n3()/from_n3 text round trip are value-level and not decided "
-    "(the string-escape table part of the latter is decided under C03)."
+    "use the same keys. (i)-(q), necessary conditions of the value-level clauses that are visible in the shape of the code: "
+    "(i) Literal() decides ill-typedness wherever it interprets a lexical form and keeps an ill-typed or inexactly valued form; "
+    "(j) xsd_datetime rejects only durations of mixed sign; (k) every datatype with a lenient converter has a lexical-space pattern, "
+    "consulted by a full match, base64 is validated; (l) 'already escaped' is decided by parity, not by one neighbouring character; "
+    "(m) every shorthand datatype has a bare token in the Turtle-family parser; (n) n3()/shorthand write the literal's own lexical form, "
+    "the shorthand only for literals that are not ill-typed; (o) numbers form one block before a comparison by datatype IRI or lexical form; "
+    "(p) language tags are compared case-folded everywhere; (q) NaN test before value comparison, __lt__ is the mirror of __gt__, "
+    "__le__/__ge__ accept the same term. What remains value-level and undecided: that the converters themselves compute the XSD value."
 )
 
 
@@ -268,6 +274,22 @@ def run(repo: Repo, rep: Report) -> None:
                         guarded = guarded or neg
                     if isinstance(t, ast.Attribute) and t.attr == "scheme" and x in norm(t):
                         guarded = True
+                    # `not SCHEME.match(x)`, SCHEME a module-level compiled pattern for "<scheme>:" (letters first, a literal colon last, anchored by match())
+                    if isinstance(t, ast.UnaryOp) and isinstance(t.op, ast.Not) and isinstance(t.operand, ast.Call) and isinstance(t.operand.func, ast.Attribute) \
+                            and t.operand.func.attr in ("match", "fullmatch") and t.operand.args and norm(t.operand.args[0]) == x and isinstance(t.operand.func.value, ast.Name):
+                        pat = None
+                        for st in sm.tree.body:
+                            if isinstance(st, ast.Assign) and norm(st.targets[0]) == t.operand.func.value.id and isinstance(st.value, ast.Call) and norm(st.value.func) in ("re.compile", "compile") \
+                                    and st.value.args and isinstance(st.value.args[0], ast.Constant) and isinstance(st.value.args[0].value, str):
+                                pat = st.value.args[0].value
+                        if pat is not None:
+                            import re._parser as _sre
+                            items = list(_sre.parse(pat))
+                            first_ok = bool(items) and str(items[0][0]) == "IN" and any(str(k) == "RANGE" and v == (ord("A"), ord("Z")) or str(k) == "RANGE" and v == (ord("a"), ord("z")) for k, v in items[0][1])
+                            last_ok = bool(items) and str(items[-1][0]) == "LITERAL" and items[-1][1] == ord(":")
+                            mid_ok = all(str(k) in ("IN", "MAX_REPEAT", "MIN_REPEAT") for k, _ in items[1:-1])
+                            no_delims = not any(ch in pat for ch in "/?#")
+                            guarded = guarded or (first_ok and last_ok and mid_ok and no_delims and t.operand.func.attr == "match")
             if p_ is af:
                 break
             child = p_
@@ -337,3 +359,772 @@ def run(repo: Repo, rep: Report) -> None:  # noqa: F811
         through_float = any(isinstance(x, ast.Call) and norm(x.func) == "float" for a in c.args for x in ast.walk(a))
         rep.ob("C07.h-from-n3-covers-what-n3-writes", um, "from_n3", c, not through_float,
                "exact" if not through_float else "the decimal is built from float(s): from_n3('100000000000000000000000.5') gives the lexical form 1.0000000000000001e+23 (not a decimal lexical form), and digits beyond double precision are lost", node=c)
+
+
+# ====================================================================== third layer: rules (i) - (q)
+# Structural conditions pinned after the audit round (F121-F141): how Literal() treats lexical forms, what n3()/the
+# Turtle shorthand may write, and the laws of the literal order.  Helpers live in vlib/h_c07.py.
+
+from typing import Optional  # noqa: E402
+
+from vlib import h_c07 as H  # noqa: E402
+
+_run_base2 = run
+
+# converters that take more than the XSD lexical space of the datatype they are registered for (rule k).  The reason is
+# the documented behaviour of the callable; a datatype mapped to one of them needs a pattern in term._lexical_spaces.
+_LENIENT_CONVERTERS = {
+    "int": "int() takes '1_000', non-ASCII digits and any Unicode white space around the number",
+    "float": "float() takes 'Infinity', 'nan', 'inf', '1_0.0', non-ASCII digits",
+    "Decimal": "Decimal() takes '1e3', 'Infinity', 'sNaN', '1_000', non-ASCII digits",
+    "parse_time": "time.fromisoformat / isodate take reduced precision ('2000' is 20:00), basic format",
+    "parse_datetime": "datetime.fromisoformat / isodate take a date without time, basic format, week dates, a blank for 'T'",
+    "parse_date": "date.fromisoformat / isodate take basic format and week dates",
+    "parse_xsd_date": "delegates to the ISO 8601 date parser (basic format, week dates)",
+    "parse_xsd_duration": "takes the ISO 8601 alternative format PYYYY-MM-DDThh:mm:ss and a decimal comma",
+}
+_B64_REASON = "base64.b64decode() silently drops every character outside the base64 alphabet unless validate=True"
+
+
+def _self_param(fn: ast.FunctionDef) -> str:
+    return fn.args.args[0].arg
+
+
+def _second_param(fn: ast.FunctionDef) -> str:
+    if len(fn.args.args) < 2:
+        raise AnalysisError("%s has no operand parameter" % fn.name)
+    return fn.args.args[1].arg
+
+
+def run(repo: Repo, rep: Report) -> None:  # noqa: F811
+    _run_base2(repo, rep)
+    tm = repo.mod("rdflib.term")
+    lm = tm.methods("Literal")
+    _rule_i_constructor(repo, rep, tm, lm)
+    _rule_j_duration_sign(repo, rep)
+    _rule_k_converters(repo, rep, tm, lm)
+    _rule_l_backslash_parity(repo, rep)
+    _rule_m_plain_types(repo, rep, tm)
+    _rule_n_written_text(repo, rep, tm, lm)
+    _rule_o_p_q_order(repo, rep, tm, lm)
+
+
+# ---------------------------------------------------------------------- (i)
+def _top_arm(fn: ast.FunctionDef, mod, node: ast.AST) -> list[ast.stmt]:
+    """the arm (statement list) of the outermost if/elif chain of fn's body that contains node"""
+    chain = [p for p in mod.parents(node)]
+    top = None
+    for p in chain:
+        if p is fn:
+            break
+        top = p
+    inside = {id(x) for x in [node] + chain}
+    cur = top
+    while isinstance(cur, ast.If):
+        if any(id(s) in inside for s in cur.body):
+            return cur.body
+        if len(cur.orelse) == 1 and isinstance(cur.orelse[0], ast.If) and id(cur.orelse[0]) in inside:
+            cur = cur.orelse[0]
+            continue
+        return cur.orelse
+    raise AnalysisError("%s: statement at line %s is not inside an if-arm of the function body" % (fn.name, getattr(node, "lineno", "?")))
+
+
+def _rule_i_constructor(repo: Repo, rep: Report, tm, lm) -> None:
+    rid = "C07.i-lexical-form-checked-and-kept"
+    rep.rule(rid,
+             "Literal.__new__: every arm that interprets a lexical form under a datatype (_castLexicalToPython(<lexical>, ...)) also decides ill-typedness there "
+             "(Literal(<Literal>, datatype=) took a short cut: '01'^^xsd:integer from the SPARQL parser stayed '01' while the Turtle parser gave '1'), and replaces the "
+             "lexical form by the canonical form of the value (_castPythonToLiteral) only under `not <ill-typed flag>` ('yes'^^xsd:boolean became 'false') and "
+             "`not _value_is_approximate(...)` ('2000-01-01Z'^^xsd:date lost its time zone): otherwise the term read back from n3() text is another term", floor=3)
+    new = lm.get("__new__")
+    if new is None:
+        raise AnalysisError("Literal.__new__ vanished")
+    rep.analysed("rdflib/term.py:Literal.__new__")
+    lex = _second_param(new)
+    flags = {norm(n.value) for n in own_nodes(new) if isinstance(n, ast.Assign) and isinstance(n.targets[0], ast.Attribute)
+             and n.targets[0].attr == "_ill_typed" and isinstance(n.value, ast.Name)}
+    if len(flags) != 1:
+        raise AnalysisError("Literal.__new__: the name stored to ._ill_typed not found (%s)" % sorted(flags))
+    flag = flags.pop()
+    sites = [c for c in own_nodes(new) if isinstance(c, ast.Call) and norm(c.func) == "_castLexicalToPython" and c.args and norm(c.args[0]) == lex]
+    if not sites:
+        raise AnalysisError("Literal.__new__: no _castLexicalToPython(%s, ...) call" % lex)
+    for c in sites:
+        arm = _top_arm(new, tm, c)
+        arm_nodes = [x for s in arm for x in ast.walk(s)]
+        par_ = tm.parent.get(id(c))
+        vname = norm(par_.targets[0]) if isinstance(par_, ast.Assign) and isinstance(par_.targets[0], ast.Name) else None
+        # (1) ill-typedness decided in this arm
+        decides = any(isinstance(x, (ast.Assign, ast.AnnAssign)) and any(isinstance(t, ast.Name) and t.id == flag for t in (x.targets if isinstance(x, ast.Assign) else [x.target]))
+                      for x in arm_nodes)
+        rep.ob(rid, tm, "Literal.__new__", "%s: ill-typedness decided in the same arm" % norm(c), decides,
+               "" if decides else "this arm takes the value of a lexical form under the datatype without checking that the form is in the lexical space (%s stays None) and "
+               "without normalising it: Literal(Literal('01'), datatype=XSD.integer) - what the SPARQL parser builds for \"01\"^^xsd:integer - is not the term "
+               "Literal('01', datatype=XSD.integer) the Turtle parser builds" % flag, node=c)
+        # (2) canonical form only for a well-typed form with an exact value
+        canon_names = set()
+        for x in arm_nodes:
+            if isinstance(x, ast.Assign) and isinstance(x.value, ast.Call) and norm(x.value.func) == "_castPythonToLiteral" and x.value.args and norm(x.value.args[0]) == vname:
+                canon_names |= {n.id for t in x.targets for n in ast.walk(t) if isinstance(n, ast.Name)}
+        repl = [x for x in arm_nodes if isinstance(x, ast.Assign) and norm(x.targets[0]) == lex and isinstance(x.value, ast.Name) and x.value.id in canon_names]
+        if not repl:
+            if decides:
+                raise AnalysisError("Literal.__new__: the arm of %s does not normalise the lexical form - unmodelled" % norm(c))
+            continue
+        for x in repl:
+            at = H.atoms(H.path_conds(tm, new, x))
+            g_ill = any(isinstance(e, ast.Name) and e.id == flag and pol is False for e, pol in at)
+            g_apx = any(isinstance(e, ast.Call) and norm(e.func) == "_value_is_approximate" and pol is False
+                        and {norm(a) for a in e.args} >= {lex, vname} for e, pol in at)
+            rep.ob(rid, tm, "Literal.__new__", "%s under `not %s`" % (norm(x), flag), g_ill,
+                   "" if g_ill else "the canonical form of the value replaces the lexical form although the form may be ill-typed: the converters return a made-up value for some "
+                   "ill-typed forms (_parseBoolean('yes') is False), so Literal('yes', datatype=XSD.boolean) becomes \"false\"^^xsd:boolean", node=x)
+            rep.ob(rid, tm, "Literal.__new__", "%s under `not _value_is_approximate(%s, %s)`" % (norm(x), lex, vname), g_apx,
+                   "" if g_apx else "the canonical form of the value replaces the lexical form although the Python value may be narrower than the XSD value: "
+                   "Literal('2000-01-01Z', datatype=XSD.date) becomes '2000-01-01', '10:00:00.1234567'^^xsd:time loses its last digit", node=x)
+
+
+# ---------------------------------------------------------------------- (j)
+_YM_ATTRS = ("years", "months")
+_DT_ATTRS = ("tdelta", "days", "seconds", "microseconds")
+
+
+def _duration_part(D: "H.Defs", e: ast.AST, seen: frozenset = frozenset()) -> set[str]:
+    """which part of a duration an expression measures: 'ym' (reads .years/.months) or 'dt' (reads .tdelta/.days/.seconds/
+    .microseconds); local names are followed to their bindings"""
+    out: set[str] = set()
+    for x in ast.walk(e):
+        if isinstance(x, ast.Attribute):
+            if x.attr in _YM_ATTRS:
+                out.add("ym")
+            elif x.attr in _DT_ATTRS:
+                out.add("dt")
+        elif isinstance(x, ast.Name) and x.id not in seen and x.id not in D.params:  # (a re-bound parameter stays what its attributes say)
+            for v in D.values(x.id):
+                if v is not None:
+                    out |= _duration_part(D, v, seen | {x.id})
+    return out
+
+
+def _sign_facts(mod, fn: ast.AST, D: "H.Defs", node: ast.AST) -> dict[str, set[str]]:
+    """what the path condition of node says about the sign of the year/month part and of the day/time part"""
+    facts: dict[str, set[str]] = {}
+
+    def put(parts: set[str], sign: str) -> None:
+        if len(parts) == 1:
+            facts.setdefault(next(iter(parts)), set()).add(sign)
+
+    for e, pol in H.atoms(H.path_conds(mod, fn, node)):
+        if isinstance(e, ast.Compare) and len(e.ops) == 1 and isinstance(e.ops[0], (ast.Lt, ast.Gt)):
+            l, r = e.left, e.comparators[0]
+            lt = isinstance(e.ops[0], ast.Lt)
+            if isinstance(l, ast.Constant) and l.value == 0:
+                l, r, lt = r, l, not lt
+            if isinstance(r, ast.Constant) and r.value == 0 and not isinstance(r.value, bool):
+                sign = ("neg" if lt else "pos") if pol else ("nonneg" if lt else "nonpos")
+                put(_duration_part(D, l), sign)
+        elif isinstance(e, ast.Name):
+            # a flag: set to True under a sign test somewhere before this point
+            parts: set[str] = set()
+            signs: set[str] = set()
+            for st in H.earlier_siblings(mod, fn, node):
+                for a in ast.walk(st):
+                    if isinstance(a, ast.Assign) and any(isinstance(t, ast.Name) and t.id == e.id for t in a.targets) \
+                            and isinstance(a.value, ast.Constant) and a.value.value is True:
+                        inner = _sign_facts(mod, fn, D, a)
+                        for p_, s_ in inner.items():
+                            if s_ & {"neg", "pos"}:
+                                parts.add(p_)
+                                signs |= s_ & {"neg", "pos"}
+            if len(parts) == 1 and len(signs) == 1:
+                s = next(iter(signs))
+                put(parts, s if pol else ("nonneg" if s == "neg" else "nonpos"))
+    return facts
+
+
+def _rule_j_duration_sign(repo: Repo, rep: Report) -> None:
+    rid = "C07.j-duration-rejects-only-mixed-signs"
+    rep.rule(rid,
+             "rdflib/xsd_datetime.py: a `raise` whose path condition fixes the sign of both the year/month part and the day/time part of a duration is reached only when the "
+             "two signs are opposite; -P1Y1D (both parts negative) is a valid xsd:duration whose value and canonical form must be computable, otherwise the literal has no "
+             "value and is not the term its lexical form denotes", floor=2)
+    xm = repo.mod("rdflib.xsd_datetime")
+    n = 0
+    for q, fn in xm.functions():
+        D = H.Defs(fn)
+        for r in own_nodes(fn):
+            if not isinstance(r, ast.Raise):
+                continue
+            facts = _sign_facts(xm, fn, D, r)
+            if not ("ym" in facts and "dt" in facts):
+                continue
+            n += 1
+            rep.analysed("rdflib/xsd_datetime.py:" + q)
+            same = bool({"neg"} <= facts["ym"] and {"neg"} <= facts["dt"]) or bool({"pos"} <= facts["ym"] and {"pos"} <= facts["dt"])
+            rep.ob(rid, xm, q, "raise under year/month %s, day/time %s" % ("+".join(sorted(facts["ym"])), "+".join(sorted(facts["dt"]))), not same,
+                   "mixed signs only" if not same else "a duration whose parts have the same sign is rejected: Literal('-P1Y1D', datatype=XSD.duration) "
+                   "(parse_xsd_duration negates both parts) raises here, so the literal gets no value / no canonical form", node=r)
+    if n == 0:
+        raise AnalysisError("xsd_datetime: no sign-dependent raise found (duration_isoformat changed shape)")
+
+
+# ---------------------------------------------------------------------- (k)
+def _dict_entries(tm, name: str) -> list[tuple[ast.expr, ast.expr]]:
+    vals = H.module_assigns(tm).get(name, [])
+    out: list[tuple[ast.expr, ast.expr]] = []
+    for v in vals:
+        if isinstance(v, ast.Dict):
+            out += [(k, x) for k, x in zip(v.keys, v.values) if k is not None]
+    return out
+
+
+def _lexical_space_table(repo: Repo, tm, xsd_to_python: list[tuple[str, ast.expr]]) -> dict[str, ast.expr]:
+    """datatype IRI -> pattern expression of term._lexical_spaces: the dict display plus the
+    `_lexical_spaces.update((URIRef(k), PAT) for k, v in XSDToPython.items() if v in (...))` idiom, evaluated on the table"""
+    table: dict[str, ast.expr] = {}
+    for k, v in _dict_entries(tm, "_lexical_spaces"):
+        iri = H.fold_str(repo, tm, k)
+        if iri is None:
+            raise AnalysisError("_lexical_spaces: key %s is not a constant IRI" % norm(k))
+        table[iri] = v
+    for st in tm.tree.body:
+        if not (isinstance(st, ast.Expr) and isinstance(st.value, ast.Call) and norm(st.value.func) == "_lexical_spaces.update"):
+            continue
+        a = st.value.args[0] if st.value.args else None
+        ok = isinstance(a, ast.GeneratorExp) and len(a.generators) == 1 and norm(a.generators[0].iter) == "XSDToPython.items()" \
+            and isinstance(a.generators[0].target, ast.Tuple) and len(a.generators[0].target.elts) == 2 and isinstance(a.elt, ast.Tuple) and len(a.elt.elts) == 2
+        if not ok:
+            raise AnalysisError("_lexical_spaces.update(%s): unmodelled" % norm(a) if a is not None else "?")
+        g = a.generators[0]
+        kname, vname = norm(g.target.elts[0]), norm(g.target.elts[1])
+        if not any(isinstance(x, ast.Name) and x.id == kname for x in ast.walk(a.elt.elts[0])):
+            raise AnalysisError("_lexical_spaces.update: key expression %s does not use the datatype" % norm(a.elt.elts[0]))
+        wanted: Optional[set[str]] = None
+        for cond in g.ifs:
+            if isinstance(cond, ast.Compare) and len(cond.ops) == 1 and isinstance(cond.ops[0], ast.In) and norm(cond.left) == vname \
+                    and isinstance(cond.comparators[0], (ast.Tuple, ast.List, ast.Set)):
+                wanted = {H.root_callable(repo, tm, e)[0].rsplit(".", 1)[-1] for e in cond.comparators[0].elts}
+            else:
+                raise AnalysisError("_lexical_spaces.update: filter %s unmodelled" % norm(cond))
+        for iri, conv in xsd_to_python:
+            if wanted is None or (isinstance(conv, ast.Name) and H.root_callable(repo, tm, conv)[0].rsplit(".", 1)[-1] in wanted):
+                table.setdefault(iri, a.elt.elts[1])
+    return table
+
+
+def _regex_categories(pattern: str) -> set[str]:
+    import re._parser as sre  # type: ignore[import-not-found]
+
+    out: set[str] = set()
+
+    def walk(items) -> None:
+        for op, av in items:
+            name = str(op)
+            if name == "CATEGORY":
+                out.add(str(av))
+            elif name == "ANY":
+                out.add("ANY")
+            if isinstance(av, (list, tuple)):
+                for x in av:
+                    if hasattr(x, "data"):
+                        walk(x.data)
+                    elif isinstance(x, (list, tuple)):
+                        if len(x) == 2 and not isinstance(x[0], (list, tuple)) and str(x[0]).isupper():
+                            walk([x])
+                        else:
+                            for y in x:
+                                if hasattr(y, "data"):
+                                    walk(y.data)
+                                elif isinstance(y, (list, tuple)) and len(y) == 2 and str(y[0]).isupper():
+                                    walk([y])
+            elif hasattr(av, "data"):
+                walk(av.data)
+
+    walk(sre.parse(pattern).data)
+    return out
+
+
+def _rule_k_converters(repo: Repo, rep: Report, tm, lm) -> None:
+    rid = "C07.k-lexical-space-not-left-to-lenient-converter"
+    rep.rule(rid,
+             "every recognised datatype whose lexical-to-value converter in term.XSDToPython accepts more than the XSD lexical space (the Python constructors int/float/Decimal: "
+             "'1_000', non-ASCII digits, 'Infinity', '1e3'^^xsd:decimal; the ISO 8601 parsers: '2000'^^xsd:time, basic format, week dates, a bare date for a dateTime) has a pattern "
+             "in term._lexical_spaces, a pattern is free of Unicode-wide classes (\\d, \\w, \\s), Literal.__new__ makes the ill-typed flag depend on that table through a full match, "
+             "and base64 text is decoded with validate=True: else an ill-typed form gets a value, is taken for well-typed and is rewritten to the canonical form of that value, "
+             "i.e. the text of one term is read back as another term", floor=30)
+    x2p = []
+    for k, v in _dict_entries(tm, "XSDToPython"):
+        if isinstance(k, ast.Constant) and k.value is None:
+            continue
+        iri = H.fold_str(repo, tm, k)
+        if iri is None:
+            raise AnalysisError("XSDToPython: key %s is not a constant IRI" % norm(k))
+        x2p.append((iri, v))
+    if len(x2p) < 25:
+        raise AnalysisError("XSDToPython: only %d entries found" % len(x2p))
+    table = _lexical_space_table(repo, tm, x2p)
+    n_b64 = 0
+    for iri, conv in x2p:
+        if isinstance(conv, ast.Constant) and conv.value is None:
+            continue
+        if not isinstance(conv, ast.Name):
+            raise AnalysisError("XSDToPython[%s]: converter %s unmodelled" % (iri, norm(conv)))
+        root, where = H.root_callable(repo, tm, conv)
+        last = root.rsplit(".", 1)[-1]
+        short = iri.rsplit("#", 1)[-1]
+        if last in _LENIENT_CONVERTERS:
+            ok = iri in table
+            rep.ob(rid, tm, "XSDToPython", "%s -> %s: pattern in _lexical_spaces" % (short, last), ok,
+                   "" if ok else "%s; no pattern restricts the lexical forms of %s, so such a form is well-typed for Literal() and is replaced by the canonical form of its value" % (_LENIENT_CONVERTERS[last], short),
+                   node=conv)
+        elif last == "b64decode":
+            n_b64 += 1
+            rep.ob(rid, tm, "XSDToPython", "%s -> %s" % (short, root), False,
+                   "%s: Literal('AA=!=', datatype=XSD.base64Binary) gets the value b'\\x00' and the lexical form 'AA=='" % _B64_REASON, node=conv)
+        elif where is not None:
+            fn = where.defs.get(last)
+            for c in ast.walk(fn) if fn is not None else []:
+                if isinstance(c, ast.Call) and H.root_callable(repo, where, c.func)[0].rsplit(".", 1)[-1] == "b64decode":
+                    n_b64 += 1
+                    ok = any(kw.arg == "validate" and isinstance(kw.value, ast.Constant) and kw.value.value is True for kw in c.keywords)
+                    rep.ob(rid, where, last, c, ok, "" if ok else _B64_REASON + ": an ill-typed xsd:base64Binary form gets a value and is normalised to other text", node=c)
+    if n_b64 == 0:
+        raise AnalysisError("XSDToPython: no base64 decoder found")
+    # the patterns themselves
+    seen_pat: set[str] = set()
+    for iri, pe in sorted(table.items()):
+        ptxt = H.fold_str(repo, tm, pe, wrappers=("URIRef", "str", "re.compile", "compile"))
+        if ptxt is None and isinstance(pe, ast.Call) and norm(pe.func) in ("re.compile", "compile") and pe.args:
+            ptxt = H.fold_str(repo, tm, pe.args[0])
+        if ptxt is None and isinstance(pe, ast.Name):
+            vals = H.module_assigns(tm).get(pe.id, [])
+            if len(vals) == 1 and isinstance(vals[0], ast.Call) and norm(vals[0].func) in ("re.compile", "compile") and vals[0].args:
+                ptxt = H.fold_str(repo, tm, vals[0].args[0])
+        if ptxt is None:
+            raise AnalysisError("_lexical_spaces[%s]: pattern %s is not a constant" % (iri, norm(pe)))
+        if ptxt in seen_pat:
+            continue
+        seen_pat.add(ptxt)
+        cats = {c for c in _regex_categories(ptxt) if c.startswith("CATEGORY")}
+        rep.ob(rid, tm, "_lexical_spaces", "pattern %s" % ptxt, not cats,
+               "ASCII classes only" if not cats else "the pattern uses %s, which in a str pattern match non-ASCII characters (\\d matches the Arabic-Indic digits int() also takes): "
+               "'١'^^xsd:integer stays well-typed and is rewritten to '1'" % sorted(cats), node=pe)
+    # Literal.__new__ consults the table, by a full match
+    new = lm["__new__"]
+    D = H.Defs(new)
+    flag_assigns = [n for n in own_nodes(new) if isinstance(n, ast.Assign) and isinstance(n.targets[0], ast.Attribute) and n.targets[0].attr == "_ill_typed"]
+    consult = []
+    for fa in flag_assigns:
+        fname = norm(fa.value)
+        for v in D.values(fname):
+            if v is None:
+                continue
+            for c in ast.walk(ast.parse(D.expand(v), mode="eval")):
+                if isinstance(c, ast.Call) and isinstance(c.func, ast.Name) and isinstance(tm.defs.get(c.func.id), ast.FunctionDef):
+                    body = tm.func(c.func.id)
+                    if any(isinstance(x, ast.Name) and x.id == "_lexical_spaces" for x in ast.walk(body)):
+                        consult.append(body)
+    ok = bool(consult)
+    rep.ob(rid, tm, "Literal.__new__", "the ill-typed flag depends on _lexical_spaces", ok,
+           "" if ok else "Literal.__new__ decides ill-typedness from the converter's success alone: every form the lenient Python / ISO 8601 converters accept is well-typed", node=new)
+    for body in consult[:1]:
+        full = any(isinstance(c, ast.Call) and isinstance(c.func, ast.Attribute) and c.func.attr == "fullmatch" for c in ast.walk(body))
+        rep.ob(rid, tm, body.name, "the pattern is applied with fullmatch", full,
+               "" if full else "%s applies the pattern with match()/search(): a form with a valid prefix ('1_000', '12abc') is in the lexical space" % body.name, node=body)
+
+
+# ---------------------------------------------------------------------- (l)
+def _rule_l_backslash_parity(repo: Repo, rep: Report) -> None:
+    rid = "C07.l-escapedness-by-parity"
+    rep.rule(rid,
+             "a function that writes text in which the backslash escapes itself (it doubles backslashes: .replace('\\\\', '\\\\\\\\')) never decides whether a character is already "
+             "escaped by looking at ONE neighbouring character (x[-2] != '\\\\', x.endswith('\\\\')): after an escaped backslash the neighbour is a backslash too, only the parity of "
+             "the run tells.  Literal('a\\n\\\\\"').n3() ended in \\\\\"\"\"\" - the final quote closed the long string early and the text did not read back", floor=2)
+    n = 0
+    for _, mod in sorted(repo.modules.items()):
+        for q, fn in mod.functions():
+            doubles = [c for c in own_nodes(fn) if isinstance(c, ast.Call) and isinstance(c.func, ast.Attribute) and c.func.attr == "replace" and len(c.args) == 2
+                       and all(isinstance(a, ast.Constant) for a in c.args) and c.args[0].value in ("\\", b"\\") and c.args[1].value in ("\\\\", b"\\\\")]
+            if not doubles:
+                continue
+            n += 1
+            rep.analysed("%s:%s" % (mod.rel, q))
+            bad = []
+            for c in own_nodes(fn):
+                if isinstance(c, ast.Compare) and len(c.ops) == 1 and isinstance(c.ops[0], (ast.Eq, ast.NotEq)):
+                    sides = [c.left, c.comparators[0]]
+                    if any(isinstance(s, ast.Constant) and s.value in ("\\", b"\\") for s in sides) and \
+                            any(isinstance(s, ast.Subscript) and not isinstance(s.slice, ast.Slice) for s in sides):
+                        bad.append(c)
+                if isinstance(c, ast.Call) and isinstance(c.func, ast.Attribute) and c.func.attr in ("endswith", "startswith") and c.args \
+                        and isinstance(c.args[0], ast.Constant) and c.args[0].value in ("\\", b"\\"):
+                    bad.append(c)
+            if not bad:
+                rep.ob(rid, mod, q, "no single-character test for 'already escaped'", True, "", node=fn)
+            for c in bad:
+                rep.ob(rid, mod, q, c, False,
+                       "%s reads one character to decide whether the next one is escaped; in this text a backslash may itself be the second half of an escaped backslash: "
+                       "for the lexical form 'a<LF>\\\\\"' (ends in backslash, quote) the final quote is left unescaped and runs into the closing quotes" % norm(c), node=c)
+    if n == 0:
+        raise AnalysisError("no function doubling backslashes found (Literal._quote_encode changed shape)")
+
+
+# ---------------------------------------------------------------------- (m)
+def _rule_m_plain_types(repo: Repo, rep: Report, tm) -> None:
+    rid = "C07.m-shorthand-types-have-a-token"
+    rep.rule(rid,
+             "every datatype in term._PLAIN_LITERAL_TYPES (those Literal._literal_n3(use_plain=True) may write as a bare token) is a datatype the Turtle-family parser gives to a "
+             "bare token (the Literal(..., datatype=) constructions of notation3.RDFSink.normalise): owl:rational has no token - a bare -3 is read back as xsd:integer and a "
+             "bare 1/2 is a syntax error", floor=4)
+    vals = H.module_assigns(tm).get("_PLAIN_LITERAL_TYPES", [])
+    if len(vals) != 1 or not isinstance(vals[0], (ast.Tuple, ast.List)):
+        raise AnalysisError("term._PLAIN_LITERAL_TYPES is not a tuple display")
+    nm = repo.mod("rdflib.plugins.parsers.notation3")
+    nf = nm.func("RDFSink.normalise")
+    rep.analysed("rdflib/plugins/parsers/notation3.py:RDFSink.normalise")
+    read: set[str] = set()
+    for c in own_nodes(nf):
+        if isinstance(c, ast.Call) and norm(c.func) == "Literal":
+            for kw in c.keywords:
+                if kw.arg == "datatype":
+                    iri = H.fold_str(repo, nm, kw.value)
+                    if iri is None:
+                        raise AnalysisError("RDFSink.normalise: datatype %s is not a constant" % norm(kw.value))
+                    read.add(iri)
+    if len(read) < 4:
+        raise AnalysisError("RDFSink.normalise: bare-token datatypes not found (%s)" % sorted(read))
+    for e in vals[0].elts:
+        iri = H.fold_str(repo, tm, e)
+        if iri is None:
+            raise AnalysisError("_PLAIN_LITERAL_TYPES: %s is not a constant IRI" % norm(e))
+        ok = iri in read
+        rep.ob(rid, tm, "_PLAIN_LITERAL_TYPES", "%s (%s)" % (norm(e), iri), ok,
+               "a bare token of the parser" if ok else "no bare token of the Turtle / N3 / SPARQL grammars is read as <%s>: a literal of this type written without quotes and datatype "
+               "comes back as a term of another datatype or does not parse (Literal(Fraction(-3)) -> -3 -> xsd:integer)" % iri, node=e)
+
+
+# ---------------------------------------------------------------------- (n)
+def _own_text(mod, fn: ast.AST, at: ast.AST, e: ast.AST, selfname: str, depth: int = 0) -> bool:
+    """e, evaluated at statement `at`, is the literal's own lexical form: str(self), f"{self}", self, or a local name whose
+    bindings reaching `at` are all such"""
+    if depth > 6:
+        return False
+    if isinstance(e, ast.Name):
+        if e.id == selfname:
+            return True
+        vals = H.reaching_values(mod, fn, at, e.id)
+        return bool(vals) and all(v is not None and _own_text(mod, fn, at, v, selfname, depth + 1) for v in vals)
+    if isinstance(e, ast.JoinedStr):
+        return len(e.values) == 1 and isinstance(e.values[0], ast.FormattedValue) and e.values[0].format_spec is None \
+            and e.values[0].conversion in (-1, 115) and _own_text(mod, fn, at, e.values[0].value, selfname, depth + 1)
+    if isinstance(e, ast.Call) and not e.keywords:
+        f = norm(e.func)
+        if f in ("str", "str.__str__") and len(e.args) == 1:
+            return _own_text(mod, fn, at, e.args[0], selfname, depth + 1)
+        if f == selfname + ".__str__" and not e.args:
+            return True
+    return False
+
+
+def _subst_name(e: ast.AST, name: str, value: Optional[ast.AST], placeholder: str = "TOKEN") -> str:
+    """text of e with the local `name` replaced by the expression it is bound to (or a placeholder): independent of how locals are called"""
+    import copy
+
+    class T(ast.NodeTransformer):
+        def visit_Name(self, n: ast.Name):  # noqa: N802
+            if n.id == name:
+                return copy.deepcopy(value) if value is not None else ast.Name(id=placeholder, ctx=ast.Load())
+            return n
+
+    return norm(T().visit(copy.deepcopy(e)))
+
+
+def _not_ill_typed(at: list, selfname: str) -> bool:
+    for e, pol in at:
+        if isinstance(e, ast.Attribute) and e.attr in ("ill_typed", "_ill_typed") and norm(e.value) == selfname and pol is False:
+            return True
+        if isinstance(e, ast.Compare) and len(e.ops) == 1 and isinstance(e.left, ast.Attribute) and e.left.attr in ("ill_typed", "_ill_typed") \
+                and norm(e.left.value) == selfname and isinstance(e.comparators[0], ast.Constant):
+            c, op = e.comparators[0].value, e.ops[0]
+            if c is False and isinstance(op, (ast.Is, ast.Eq)) and pol:
+                return True
+            if c is True and isinstance(op, (ast.Is, ast.Eq)) and not pol:
+                return True
+            if c is True and isinstance(op, (ast.IsNot, ast.NotEq)) and pol:
+                return True
+    return False
+
+
+def _rule_n_written_text(repo: Repo, rep: Report, tm, lm) -> None:
+    rid = "C07.n-written-text-is-the-lexical-form"
+    rep.rule(rid,
+             "Literal._literal_n3 writes the literal's own lexical form: (1) a bare token of the Turtle shorthand is the text of the literal itself (str(self) / f'{self}', possibly "
+             "after tests on it), never a text derived from it (s += '.0' wrote \"1\"^^xsd:decimal as 1.0; .lower() / the value wrote \"1\"^^xsd:boolean as 1, an integer) - "
+             "the parser takes the token for the lexical form; (2) the shorthand is used only for literals that are not ill-typed (an ill-typed form is not a token of the grammar); "
+             "(3) in the quoted form the text bound from self._quote_encode() is not rewritten afterwards", floor=5)
+    fn = lm.get("_literal_n3")
+    if fn is None:
+        raise AnalysisError("Literal._literal_n3 vanished")
+    rep.analysed("rdflib/term.py:Literal._literal_n3")
+    me = _self_param(fn)
+    blocks = [s for s in own_nodes(fn) if isinstance(s, ast.If) and any(isinstance(x, ast.Name) and x.id == "_PLAIN_LITERAL_TYPES" for x in ast.walk(s.test))]
+    if len(blocks) != 1:
+        raise AnalysisError("Literal._literal_n3: the shorthand block (test on _PLAIN_LITERAL_TYPES) not found once (%d)" % len(blocks))
+    blk = blocks[0]
+    rets = [r for s in blk.body for r in ast.walk(s) if isinstance(r, ast.Return) and r.value is not None
+            and not (isinstance(r.value, ast.Call) and norm(r.value.func) == me + "._literal_n3")]
+    if not rets:
+        raise AnalysisError("Literal._literal_n3: the shorthand block returns no bare token")
+    for r in rets:
+        ok = _own_text(tm, fn, r, r.value, me)
+        shown = norm(r.value)
+        one = None
+        if isinstance(r.value, ast.Name):
+            rv = H.reaching_values(tm, fn, r, r.value.id)
+            shown = " | ".join("<augmented>" if v is None else norm(v) for v in rv) or shown
+            one = rv[0] if len(rv) == 1 and rv[0] is not None else None
+        # the tests the token went through inside the block (part of the construct: a tested and an untested token differ)
+        tested = []
+        for e, pol in H.atoms(H.path_conds(tm, blk, r)):
+            if isinstance(r.value, ast.Name) and any(isinstance(x, ast.Name) and x.id == r.value.id for x in ast.walk(e)):
+                tested.append(("" if pol else "not ") + _subst_name(e, r.value.id, one))
+        if tested:
+            shown += " [tested: %s]" % "; ".join(tested)
+        rep.ob(rid, tm, "Literal._literal_n3", "bare token: %s" % shown, ok,
+               "the literal's own text" if ok else "the token written is not the lexical form of the literal but a text computed from it (%s): the parser reads a bare token as "
+               "the lexical form, so the term read back is another one whenever the two differ" % shown, node=r)
+    unguarded = [r for r in rets if not _not_ill_typed(H.atoms(H.path_conds(tm, fn, r)), me)]
+    rep.ob(rid, tm, "Literal._literal_n3", "bare tokens only for literals that are not ill-typed", not unguarded,
+           "" if not unguarded else "the shorthand block is entered on `%s` alone; an ill-typed literal may have a value (the converters are lenient: '1_000'^^xsd:integer has the value 1000, "
+           "'1e3'^^xsd:decimal, 'TRUE'^^xsd:boolean) and its lexical form is then written as a bare token: 1_000 does not parse, 1e3 is read back as an xsd:double"
+           % " and ".join(norm(e) if pol else "not (%s)" % norm(e) for e, pol in H.atoms(H.path_conds(tm, fn, unguarded[0]))[:3]), node=blk)
+    # (3) quoted path
+    qnames = [norm(n.targets[0]) for n in own_nodes(fn) if isinstance(n, (ast.Assign,)) and isinstance(n.value, ast.Call) and norm(n.value.func) == me + "._quote_encode"
+              and isinstance(n.targets[0], ast.Name)]
+    qnames += [n.target.id for n in own_nodes(fn) if isinstance(n, ast.AnnAssign) and isinstance(n.value, ast.Call) and norm(n.value.func) == me + "._quote_encode" and isinstance(n.target, ast.Name)]
+    if not qnames:
+        raise AnalysisError("Literal._literal_n3: self._quote_encode() is not bound to a name")
+    for q in sorted(set(qnames)):
+        others = [n for n in own_nodes(fn) if isinstance(n, (ast.Assign, ast.AugAssign, ast.AnnAssign))
+                  and any(isinstance(t, ast.Name) and t.id == q for t in (n.targets if isinstance(n, ast.Assign) else [n.target]))
+                  and not (isinstance(getattr(n, "value", None), ast.Call) and norm(n.value.func) == me + "._quote_encode")]
+        if not others:
+            rep.ob(rid, tm, "Literal._literal_n3", "the quoted text is self._quote_encode(), unchanged", True, "", node=fn)
+        for n in others:
+            rep.ob(rid, tm, "Literal._literal_n3", "re-binds the quoted text: %s" % _subst_name(n.value, q, None, "QUOTED"), False,
+                   "the quoted lexical form is rewritten after encoding: Literal('inf', datatype=XSD.double).n3() is \"INF\"^^xsd:double and Literal(Decimal('Infinity')).n3() is "
+                   "\"INF\"^^xsd:decimal - read back, these are other terms than the ones written (the constructor already writes INF / NaN for float values; what is left are "
+                   "ill-typed forms and Decimal('Infinity'), which must keep their text)", node=n)
+
+
+# ---------------------------------------------------------------------- (o) (p) (q)
+def _lang_of(D: "H.Defs", e: ast.AST, depth: int = 0) -> Optional[tuple[str, bool]]:
+    """(whose, case-folded?) when e is the language tag of a literal: x.language / x._language, `... or ""`,
+    `x._language.lower() if x._language else None`, .lower()/.casefold() of one, or a local name bound to one"""
+    if depth > 6:
+        return None
+    if isinstance(e, ast.Attribute) and e.attr in ("language", "_language") and isinstance(e.value, ast.Name):
+        return e.value.id, False
+    if isinstance(e, ast.BoolOp) and isinstance(e.op, ast.Or) and len(e.values) == 2 and isinstance(e.values[1], ast.Constant):
+        return _lang_of(D, e.values[0], depth + 1)
+    if isinstance(e, ast.IfExp):
+        return _lang_of(D, e.body, depth + 1)
+    if isinstance(e, ast.Call) and isinstance(e.func, ast.Attribute) and not e.args and not e.keywords:
+        inner = _lang_of(D, e.func.value, depth + 1)
+        if inner is not None and e.func.attr in ("lower", "casefold", "upper"):
+            return inner[0], True
+        return None
+    if isinstance(e, ast.Name):
+        r = D.resolve(e)
+        if r is not e:
+            return _lang_of(D, r, depth + 1)
+    return None
+
+
+def _reads_of(D: "H.Defs", e: ast.AST, attrs: tuple[str, ...], depth: int = 0) -> set[str]:
+    """whose <attrs> attribute the expression (local names followed) reads: {'self'}, {'other'}, ..."""
+    out: set[str] = set()
+    if depth > 6:
+        return out
+    for x in ast.walk(e):
+        if isinstance(x, ast.Attribute) and x.attr in attrs and isinstance(x.value, ast.Name):
+            out.add(x.value.id)
+        elif isinstance(x, ast.Name) and x.id not in D.params:
+            for v in D.values(x.id):
+                if v is not None:
+                    out |= _reads_of(D, v, attrs, depth + 1)
+    return out
+
+
+def _is_value_of(D: "H.Defs", e: ast.AST, who: str) -> bool:
+    r = D.resolve(e) if isinstance(e, ast.Name) else e
+    return isinstance(r, ast.Attribute) and r.attr in ("value", "_value") and isinstance(r.value, ast.Name) and r.value.id == who
+
+
+def _rule_o_p_q_order(repo: Repo, rep: Report, tm, lm) -> None:
+    # ---- (p) language tags are compared case-folded wherever two literals are compared
+    rp = "C07.p-language-compared-casefolded"
+    rep.rule(rp,
+             "wherever a method of Literal compares the language tags of two literals (==, !=, <, >), both sides are case-folded, as in __eq__ and __hash__: "
+             "'chat'@en and 'chat'@EN are equal, so neither may be greater than the other (sorted() / ORDER BY otherwise depend on the input order)", floor=5)
+    for name, fn in sorted(lm.items()):
+        D = H.Defs(fn)
+        for c in own_nodes(fn):
+            if not (isinstance(c, ast.Compare) and len(c.ops) == 1 and isinstance(c.ops[0], (ast.Eq, ast.NotEq, ast.Lt, ast.Gt, ast.LtE, ast.GtE))):
+                continue
+            a, b = _lang_of(D, c.left), _lang_of(D, c.comparators[0])
+            if a is None or b is None or a[0] == b[0]:
+                continue
+            rep.analysed("rdflib/term.py:Literal." + name)
+            ok = a[1] and b[1]
+            rep.ob(rp, tm, "Literal." + name, "%s %s %s" % (D.expand(c.left), type(c.ops[0]).__name__, D.expand(c.comparators[0])), ok,
+                   "case-folded on both sides" if ok else "the tags are compared as written: Literal('chat', lang='en') == Literal('chat', lang='EN') but this comparison tells them apart, "
+                   "so one is ordered after the other / they are not comparable though equal", node=c)
+
+    gt = lm.get("__gt__")
+    lt = lm.get("__lt__")
+    if gt is None or lt is None:
+        raise AnalysisError("Literal.__gt__/__lt__ vanished")
+    me, ot = _self_param(gt), _second_param(gt)
+    D = H.Defs(gt)
+    rep.analysed("rdflib/term.py:Literal.__gt__", "rdflib/term.py:Literal.__lt__")
+
+    # numeric flags: a test (or a local bound to one) that says `<x>.datatype in _NUMERIC_LITERAL_TYPES`
+    def numeric_flag_of(e: ast.AST) -> set[str]:
+        txt = D.expand(e)
+        if "_NUMERIC_LITERAL_TYPES" not in txt:
+            return set()
+        try:
+            tree = ast.parse(txt, mode="eval")
+        except SyntaxError:
+            return set()
+        who = set()
+        for x in ast.walk(tree):
+            if isinstance(x, ast.Compare) and len(x.ops) == 1 and isinstance(x.ops[0], ast.In) and norm(x.comparators[0]) == "_NUMERIC_LITERAL_TYPES":
+                who |= {n.value.id for n in ast.walk(x.left) if isinstance(n, ast.Attribute) and isinstance(n.value, ast.Name)}
+        return who
+
+    # ---- (o) numbers are one block in the order of the datatypes
+    ro = "C07.o-numbers-one-block-in-datatype-order"
+    rep.rule(ro,
+             "Literal.__gt__: numeric literals are ordered by value across datatypes, so a comparison that orders two literals by another key - the datatype IRIs, or the lexical "
+             "forms - is reached only after it was decided that both or neither are numbers (a test `<numeric self> != <numeric other>` that returns); interleaving numbers with "
+             "other literals by such a key breaks transitivity: 0 < 1.0e0 (value) < P1D (xsd:double < xsd:duration) < 0 (xsd:duration < xsd:integer)", floor=3)
+    n_o = 0
+    for c in own_nodes(gt):
+        if not (isinstance(c, ast.Compare) and len(c.ops) == 1 and isinstance(c.ops[0], (ast.Gt, ast.Lt, ast.GtE, ast.LtE))):
+            continue
+        l, r = c.left, c.comparators[0]
+        kind = None
+        if _reads_of(D, l, ("datatype", "_datatype")) == {me} and _reads_of(D, r, ("datatype", "_datatype")) == {ot}:
+            kind = "datatype IRI"
+        elif isinstance(l, ast.Call) and isinstance(r, ast.Call) and norm(l.func) == "str" and norm(r.func) == "str" and norm(l.args[0]) == me and norm(r.args[0]) == ot:
+            kind = "lexical form"
+        if kind is None:
+            continue
+        n_o += 1
+        at = H.atoms(H.path_conds(tm, gt, c))
+        decided = False
+        # (i) an earlier arm of the chain, or an earlier statement all of whose paths leave, tested the numeric flags for difference
+        def is_flag_test(e: ast.AST) -> bool:
+            return isinstance(e, ast.Compare) and len(e.ops) == 1 and isinstance(e.ops[0], (ast.NotEq, ast.IsNot)) \
+                and numeric_flag_of(e.left) == {me} and numeric_flag_of(e.comparators[0]) == {ot}
+        if any(is_flag_test(e) and pol is False for e, pol in at):
+            decided = True
+        for st in H.earlier_siblings(tm, gt, c):
+            if isinstance(st, ast.If) and is_flag_test(st.test) and H.always_leaves(st.body):
+                decided = True
+        # (ii) datatype IRIs only: the (coalesced) datatypes were found equal before - the two are of one kind
+        same_dt = False
+        if kind == "datatype IRI":
+            for st in H.earlier_siblings(tm, gt, c):
+                if isinstance(st, ast.If) and isinstance(st.test, ast.Compare) and len(st.test.ops) == 1 and isinstance(st.test.ops[0], ast.NotEq) \
+                        and _reads_of(D, st.test.left, ("datatype", "_datatype")) == {me} and _reads_of(D, st.test.comparators[0], ("datatype", "_datatype")) == {ot} \
+                        and H.always_leaves(st.body):
+                    same_dt = True
+        ok = decided or same_dt
+        rep.ob(ro, tm, "Literal.__gt__", "order by %s: %s" % (kind, D.expand(c)), ok,
+               ("after the numbers were set apart" if decided else "datatypes already found equal") if ok else
+               "two literals are ordered by their %s although one of them may be a number (ordered by value against the other numbers) and the other not: the order is not "
+               "transitive - %s" % (kind, "0 < 1.0e0 < 'P1D'^^xsd:duration < 0" if kind == "datatype IRI" else
+                                    "'5'^^xsd:integer < '20'^^xsd:integer (value) < '3x'^^xsd:integer (lexical form) < '5'^^xsd:integer (lexical form)"), node=c)
+    if n_o == 0:
+        raise AnalysisError("Literal.__gt__: no comparison by datatype IRI / lexical form found")
+
+    # ---- (q) NaN, mirror, reflexivity
+    rq = "C07.q-order-total-on-nan-and-mirrored"
+    rep.rule(rq,
+             "the literal order is a strict order also where values are not: (1) in the numeric arm of Literal.__gt__ a value comparison `a > b` is preceded by a NaN test of both "
+             "operands (x != x) that returns - NaN > x and x > NaN are both False, and Decimal raises InvalidOperation; (2) Literal.__lt__(other) is other.__gt__(self), not "
+             "`not self > other and not self.eq(other)`, which holds in both directions for unordered values; (3) __le__/__ge__ are mirror images and accept the same term "
+             "(self == other), since value equality eq() is not reflexive (NaN)", floor=5)
+    n_q = 0
+    for c in own_nodes(gt):
+        if not (isinstance(c, ast.Compare) and len(c.ops) == 1 and isinstance(c.ops[0], (ast.Gt, ast.Lt)) and _is_value_of(D, c.left, me) and _is_value_of(D, c.comparators[0], ot)):
+            continue
+        at = H.atoms(H.path_conds(tm, gt, c))
+        if not any(pol and numeric_flag_of(e) for e, pol in at):
+            continue  # not in the numeric arm: values of one non-numeric datatype
+        n_q += 1
+        covered: set[str] = set()
+        for st in H.earlier_siblings(tm, gt, c):
+            if isinstance(st, ast.If) and H.always_leaves(st.body):
+                for x in ast.walk(st.test):
+                    if isinstance(x, ast.Compare) and len(x.ops) == 1 and isinstance(x.ops[0], ast.NotEq) and norm(x.left) == norm(x.comparators[0]):
+                        for who in (me, ot):
+                            if _is_value_of(D, x.left, who):
+                                covered.add(who)
+                    if isinstance(x, ast.Call) and (norm(x.func) in ("math.isnan", "isnan") or (isinstance(x.func, ast.Attribute) and x.func.attr == "is_nan")):
+                        tgt = x.args[0] if x.args else x.func.value  # type: ignore[union-attr]
+                        for who in (me, ot):
+                            if _is_value_of(D, tgt, who):
+                                covered.add(who)
+        ok = covered == {me, ot}
+        rep.ob(rq, tm, "Literal.__gt__", "numeric arm: %s after a NaN test of both values" % D.expand(c), ok,
+               "" if ok else "the values of two numeric literals are compared with > without a NaN test%s: Literal(float('nan')) is neither greater nor less than any number nor equal "
+               "to it, so sorted() / ORDER BY give an order that depends on the input; Literal(Decimal(1)) > Literal(float('nan')) raises decimal.InvalidOperation"
+               % (" of %s" % sorted({me, ot} - covered) if covered else ""), node=c)
+    if n_q == 0:
+        raise AnalysisError("Literal.__gt__: no value comparison in the numeric arm found")
+    # (2) mirror
+    lme, lot = _self_param(lt), _second_param(lt)
+    calls = [c for c in own_nodes(lt) if isinstance(c, ast.Call) and isinstance(c.func, ast.Attribute) and c.func.attr == "__gt__" and len(c.args) == 1]
+    cmps = [c for c in own_nodes(lt) if isinstance(c, ast.Compare) and len(c.ops) == 1 and isinstance(c.ops[0], ast.Gt)]
+    pairs = [(norm(c.func.value), norm(c.args[0]), c) for c in calls] + [(norm(c.left), norm(c.comparators[0]), c) for c in cmps]
+    if not pairs:
+        raise AnalysisError("Literal.__lt__ does not delegate to __gt__: unmodelled")
+    for a, b, c in pairs:
+        ok = (a, b) == (lot, lme)
+        rep.ob(rq, tm, "Literal.__lt__", "%s: operands swapped" % norm(c), ok,
+               "a < b is b > a" if ok else "__lt__ is derived from %s.__gt__(%s) (with eq()) instead of the mirror image %s.__gt__(%s): for two literals that are not ordered by value "
+               "(NaN; eq() is False both ways) a < b and b < a both hold" % (a, b, lot, lme), node=c)
+    # (3) __le__ / __ge__
+    le, ge = lm.get("__le__"), lm.get("__ge__")
+    if le is None or ge is None:
+        raise AnalysisError("Literal.__le__/__ge__ vanished")
+    for name, fn in (("__le__", le), ("__ge__", ge)):
+        s_, o_ = _self_param(fn), _second_param(fn)
+        refl = any((isinstance(c, ast.Compare) and len(c.ops) == 1 and isinstance(c.ops[0], ast.Eq) and {norm(c.left), norm(c.comparators[0])} == {s_, o_})
+                   or (isinstance(c, ast.Call) and norm(c.func) in (s_ + ".__eq__", o_ + ".__eq__"))
+                   for r in own_nodes(fn) if isinstance(r, ast.Return) and r.value is not None for c in ast.walk(r.value))
+        rep.ob(rq, tm, "Literal." + name, "accepts the same term (%s == %s)" % (s_, o_), refl,
+               "" if refl else "%s falls back on value equality eq() only, which is not reflexive: Literal(float('nan')) %s Literal(float('nan')) is False for one and the same term"
+               % (name, "<=" if name == "__le__" else ">="), node=fn)
+    swapped = ast.unparse(ast.Module(body=le.body, type_ignores=[])).replace("__lt__", "__gt__")
+    mirror = H_canon_body(swapped) == H_canon_body(ast.unparse(ast.Module(body=ge.body, type_ignores=[])))
+    rep.ob(rq, tm, "Literal.__le__/__ge__", "same body up to __lt__/__gt__", mirror,
+           "" if mirror else "__le__ and __ge__ decide differently: for some pair a <= b is not b >= a", node=le)
+
+
+def H_canon_body(src: str) -> str:
+    """alpha-canonical text of a function body (docstring dropped)"""
+    tree = ast.parse(src)
+    tree.body = [s for s in tree.body if not (isinstance(s, ast.Expr) and isinstance(s.value, ast.Constant) and isinstance(s.value.value, str))]
+    order: dict[str, str] = {}
+    for n in sorted((x for x in ast.walk(tree) if isinstance(x, ast.Name)), key=lambda x: (x.lineno, x.col_offset)):
+        order.setdefault(n.id, "v%d" % len(order))
+    for n in ast.walk(tree):
+        if isinstance(n, ast.Name):
+            n.id = order[n.id]
+    return norm(ast.unparse(tree))
